@@ -1,34 +1,58 @@
-/- C03: well-formedness of the three generated levels for both verifier models -/
-import SqiProofs.VerifyWf.L1Dim2Ev
-import SqiProofs.VerifyWf.L1Dim2Th
-import SqiProofs.VerifyWf.L1HeurEv
-import SqiProofs.VerifyWf.L1HeurTh
-import SqiProofs.VerifyWf.L3Dim2Ev
-import SqiProofs.VerifyWf.L3Dim2Th
-import SqiProofs.VerifyWf.L3HeurEv
-import SqiProofs.VerifyWf.L3HeurTh
-import SqiProofs.VerifyWf.L5Dim2Ev
-import SqiProofs.VerifyWf.L5Dim2Th
-import SqiProofs.VerifyWf.L5HeurEv
-import SqiProofs.VerifyWf.L5HeurTh
+/-
+C03: the three generated levels satisfy the well-formedness predicates of the verifier access models.
+The numeric side conditions are decided by the kernel; the traversal facts are **corollaries of the general theorems**
+of engineer a3 — `SqiProps.C09.even_chain_of_rows` / `guard_false_in_range` (every length, guard of `ec_eval_even`
+re-read from the C text) and `SqiProps.C12.theta_chain_of_rows` (`chain_strategy_sound`: all n, all valid strategies,
+both modes) — applied to the table-validity theorems of C09 (`L*_STRATEGY4_depth`) and C18 (`L*_strategies_rows`).
+No per-row simulation any more.
+-/
+import SqiProofs.VerifyAccess
+import SqiModel.VerifyLevels
+import SqiProps.C09
+import SqiProps.C12
+
+set_option autoImplicit false
+set_option maxRecDepth 100000
 
 namespace SqiModel.Verify
-theorem L1_wfDim2 : wfDim2 L1 = true := by
-  have h : wfDim2Num L1 = true := by decide +kernel
-  simp only [wfDim2, h, L1_wfDim2Ev, L1_wfDim2Th, Bool.and_self]
-theorem L1_wfHeur : wfHeur L1 = true := by
-  have h : wfHeurNum L1 = true := by decide +kernel
-  simp only [wfHeur, h, L1_wfHeurEv, L1_wfHeurTh, Bool.and_self]
-theorem L3_wfDim2 : wfDim2 L3 = true := by
-  have h : wfDim2Num L3 = true := by decide +kernel
-  simp only [wfDim2, h, L3_wfDim2Ev, L3_wfDim2Th, Bool.and_self]
-theorem L3_wfHeur : wfHeur L3 = true := by
-  have h : wfHeurNum L3 = true := by decide +kernel
-  simp only [wfHeur, h, L3_wfHeurEv, L3_wfHeurTh, Bool.and_self]
-theorem L5_wfDim2 : wfDim2 L5 = true := by
-  have h : wfDim2Num L5 = true := by decide +kernel
-  simp only [wfDim2, h, L5_wfDim2Ev, L5_wfDim2Th, Bool.and_self]
-theorem L5_wfHeur : wfHeur L5 = true := by
-  have h : wfHeurNum L5 = true := by decide +kernel
-  simp only [wfHeur, h, L5_wfHeurEv, L5_wfHeurTh, Bool.and_self]
+
+theorem evenFacts_of (K : Lvl) (hg : K.evenNaive = SqiGen.EvenGuard.naive) (hf : K.f < SqiGen.EvenGuard.W)
+    (hrows : SqiProofs.EvenChain.rowsValidD K.f K.strat4 = true) : EvenFacts K where
+  gd := fun len h => by
+    rw [hg] at h
+    exact SqiProps.C09.guard_false_in_range len K.f K.rows4 hf h
+  ev := fun len h1 h2 => (SqiProps.C09.even_chain_of_rows K.f K.strat4 hrows len h1 h2).1
+
+theorem thetaFacts_of (K : Lvl) (cols : Nat)
+    (hrows : SqiProps.C18.rowsValid (fun i => K.f - i) cols K.strat2 = true) (hlen : K.strat2.length + 2 ≤ K.f) :
+    ThetaFacts K where
+  th := fun n idx ea hidx hrel h2 => by
+    have hidx' : idx < K.strat2.length := hidx
+    have hr : SqiProps.C12.callerRow K.strat2 K.f n ea = some (K.strat2.getD idx []) := by
+      unfold SqiProps.C12.callerRow
+      have hi : ((K.f : Int) - n + ((if ea then 0 else 2 : Nat) : Int)) = (idx : Int) := by
+        cases ea <;> simp at hrel h2 ⊢ <;> omega
+      simp only [hi]
+      have h0 : (0 : Int) ≤ (idx : Int) := by omega
+      simp only [h0, if_true, Int.toNat_natCast]
+      rw [List.getElem?_eq_getElem hidx', List.getD_eq_getElem?_getD, List.getElem?_eq_getElem hidx']
+      rfl
+    exact (SqiProps.C12.theta_chain_of_rows K.f K.strat2 cols hrows hlen n ea _ hr).1
+
+theorem L1_wfDim2 : WfDim2 L1 :=
+  ⟨by decide +kernel, evenFacts_of L1 rfl (by decide +kernel) SqiProps.C09.L1_STRATEGY4_depth,
+    thetaFacts_of L1 _ SqiProps.C18.L1_strategies_rows (by decide +kernel)⟩
+theorem L1_wfHeur : WfHeur L1 :=
+  ⟨by decide +kernel, L1_wfDim2.even, L1_wfDim2.theta⟩
+theorem L3_wfDim2 : WfDim2 L3 :=
+  ⟨by decide +kernel, evenFacts_of L3 rfl (by decide +kernel) SqiProps.C09.L3_STRATEGY4_depth,
+    thetaFacts_of L3 _ SqiProps.C18.L3_strategies_rows (by decide +kernel)⟩
+theorem L3_wfHeur : WfHeur L3 :=
+  ⟨by decide +kernel, L3_wfDim2.even, L3_wfDim2.theta⟩
+theorem L5_wfDim2 : WfDim2 L5 :=
+  ⟨by decide +kernel, evenFacts_of L5 rfl (by decide +kernel) SqiProps.C09.L5_STRATEGY4_depth,
+    thetaFacts_of L5 _ SqiProps.C18.L5_strategies_rows (by decide +kernel)⟩
+theorem L5_wfHeur : WfHeur L5 :=
+  ⟨by decide +kernel, L5_wfDim2.even, L5_wfDim2.theta⟩
+
 end SqiModel.Verify
